@@ -4,9 +4,13 @@
    directive; the model runs the same script with a deterministic run-to-quiescence scheduler (a legal schedule of the
    interleaving system of Model.v: threads that are not yet released or that are held at a hook are just not scheduled).
    CFree: the final observation of a free-running run, judged by the same conservation predicate that the theorems
-   establish for quiescent states. *)
+   establish for quiescent states.
+   CScriptO / CFreeO: the same, for a pool given by HOW IT WAS MADE - workerpool.New or Group.CreatePool, with the caller's
+   option list in order (options left out, repeated options, worker counts around and above the machine-derived
+   constants; ncpu = runtime.NumCPU() of the run): the configuration of the model is computed here by the option
+   resolution of Options.v (defaults, then the group's default, then the caller's options, last wins). *)
 From Coq Require Import List ZArith Bool Arith Sorting.Mergesort Orders.
-From Verif.C16_Pool Require Import Model.
+From Verif.C16_Pool Require Import Model Options.
 Import ListNotations.
 
 Module NatOrder <: TotalLeBool.
@@ -106,20 +110,29 @@ Definition obs_eqb (rejobs : bool) (a b : obs) : bool :=
 
 Inductive case :=
   | CScript (c : cfg) (gated : list bool) (rejobs : bool) (script : list dir) (observed : list obs) (final_cancelled : list nat)
-  | CFree (cancel_on : bool) (accepted ran cancelled : list nat) (pending_final : Z) (complete : bool).
+  | CFree (cancel_on : bool) (accepted ran cancelled : list nat) (pending_final : Z) (complete : bool)
+  | CScriptO (ncpu : nat) (via_group : bool) (opts : list popt) (p : list (list nat)) (gated : list bool) (script : list dir)
+             (observed : list obs) (final_cancelled : list nat)
+  | CFreeO (ncpu : nat) (via_group : bool) (opts : list popt) (accepted ran cancelled : list nat) (pending_final : Z) (complete : bool).
 
 Definition settle_fuel := 600.
 
 Definition model_obs (c : cfg) (gated : list bool) (script : list dir) : list obs * rs :=
   run_script settle_fuel c gated (mkRs (init c (ops_of script)) 0 false false false) script.
 
+Definition agree_script (c : cfg) (gated : list bool) (rejobs : bool) (script : list dir) (observed : list obs) (fcanc : list nat) : bool :=
+  let (os, rf) := model_obs c gated script in
+  list_eqb (obs_eqb rejobs) os observed &&
+  (negb rejobs || list_eqb Nat.eqb (NatSort.sort (canc (r_st rf))) fcanc).
+
 Definition agree (k : case) : bool :=
   match k with
-  | CScript c gated rejobs script observed fcanc =>
-      let (os, rf) := model_obs c gated script in
-      list_eqb (obs_eqb rejobs) os observed &&
-      (negb rejobs || list_eqb Nat.eqb (NatSort.sort (canc (r_st rf))) fcanc)
+  | CScript c gated rejobs script observed fcanc => agree_script c gated rejobs script observed fcanc
   | CFree cn a r x p complete => complete && conserved_b cn a r x p
+  | CScriptO ncpu via opts p gated script observed fcanc =>
+      let pc := pool_cfg via ncpu opts in
+      (1 <=? pc_workers pc) && agree_script (to_cfg pc p) gated (pc_panic pc) script observed fcanc
+  | CFreeO ncpu via opts a r x p complete => complete && conserved_b (pc_cancel (pool_cfg via ncpu opts)) a r x p
   end.
 
 Fixpoint mismatches_from (i : nat) (cs : list case) : list nat :=
